@@ -73,6 +73,82 @@ def _arm_name(facts, key, at):
     return '#%d' % (sites.index(at) + 1) if at in sites else 'site'
 
 
+class _PendingAu(Automaton):
+    """state (pending, complaints): a name inside record data has been re-emitted and the data length not yet rewritten"""
+    init = (False, frozenset())
+
+    def __init__(self, facts, key, name_calls, rdata_blocks):
+        self.facts, self.key, self.name_calls, self.rdata_blocks = facts, key, name_calls, rdata_blocks
+
+    def on_call(self, q, f, bi, t, env, flow):
+        if f['key'] != self.key:
+            return None
+        pending, bad = q
+        p = F.call_path(t) or ''
+        if p.endswith('write_u16'):
+            return [((False, bad), None)]
+        if any(p.endswith(nc) for nc in self.name_calls) and bi in self.rdata_blocks:
+            q2 = (True, bad)
+            dty = f['locals'][t['dest']['local']] if not t['dest']['proj'] else {}
+            if dty.get('adt') == 'std::result::Result':
+                return [(q2, 0), (q, 1)]
+            return [(q2, None)]
+        if pending and (p.endswith('::next_including_opt') or p.endswith('DNSIterable>::next') or p.endswith('::next')) and 'Iterator' not in p:
+            return [((pending, bad | {t.get('at')}), None)]
+        return None
+
+
+def rewrite_on_every_path_rule(ctx, facts, cfg, rid, key, name_calls, floor=3):
+    """After a name has been re-emitted inside record data (its length in the output differs from the input in general), every
+    successful path to the end of that record's treatment rewrites the data length: no Ok return, and no advance to the next record, is
+    reached with the rewrite still pending (path-sensitive; failed paths are ignored, the output is discarded there).  All three
+    re-emitters rewrite unconditionally; a conditional "only if it changed" rewrite is reported too: that it is equivalent depends on
+    validator facts this rule does not import."""
+    f = facts.fn(key)
+    if f is None:
+        ctx.missing(rid, key)
+        return
+    defs = F.single_defs(f)
+    dom = F.dominators(f)
+    # blocks dominated by the true edge of a record-type test: the arms that treat record data
+    arm_entries = set()
+    for bi, b in F.blocks(f):
+        t = b['term']
+        if t['k'] != 'switch':
+            continue
+        rs = F.roots(f, defs, t['discr'])
+        if any(r[0] == 'call' and str(r[1]).endswith('::rr_type') for r in rs) or any(r[0] == 'param' for r in rs) and 'constants::Type' in str(F.expr(f, defs, t['discr'])):
+            e = F.expr(f, defs, t['discr'])
+            if e[0] == 'binop' and e[1] in ('Eq', 'Ne'):
+                tru = t['otherwise'] if all(v == 0 for v, _ in t['targets']) else next((tb for v, tb in t['targets'] if v == 1), None)
+                fal = next((tb for v, tb in t['targets'] if v == 0), None)
+                arm_entries.add(tru if e[1] == 'Eq' else fal)
+    rdata_blocks = {bi for bi, _ in F.blocks(f) if any(a is not None and (a == bi or a in dom.get(bi, ())) for a in arm_entries)}
+    sites = [(bi, b['term']) for bi, b in F.blocks(f) if b['term']['k'] == 'call' and any((F.call_path(b['term']) or '').endswith(nc) for nc in name_calls) and bi in rdata_blocks]
+    au = _PendingAu(facts, key, name_calls, rdata_blocks)
+    flow = PathFlow(facts, au)
+    exits = flow.summary(key, _PendingAu.init)
+    bad_exit = [(q, kind) for (q, kind) in exits if kind in ('Ok', 'ret', 'Some') and q[0]]
+    bad_adv = set()
+    for (q, kind) in exits:
+        bad_adv |= set(q[1])
+    ok = not bad_exit and not bad_adv
+    ctx.instance(rid, '%s: %d name(s) re-emitted inside record data, each followed by a data-length rewrite on every successful path' % (key.split('::')[-1], len(sites)), ok=ok, site=f['at'])
+    if bad_exit:
+        q0, k0 = bad_exit[0]
+        ctx.violation(rid, key, 'rdlen-rewrite-skipped', '%s can finish a record successfully with a name re-emitted inside its data and the data length not rewritten: the record keeps the input\'s length although '
+                      'its data changed size' % key.split('::')[-1], site=f['at'], path=flow.describe_path(key, flow.witness(key, _PendingAu.init, q0, k0)), config=cfg)
+    for at in sorted(bad_adv)[:1]:
+        ctx.violation(rid, key, 'rdlen-rewrite-skipped-before-next-record', '%s advances to the next record at %s with a data-length rewrite still pending' % (key.split('::')[-1], at), site=at, config=cfg)
+    if len(sites) < floor:
+        ctx.violation(rid, '<floor>', 'names in record data of ' + key.split('::')[-1], 'found %d names re-emitted inside record data in %s, expected at least %d' % (len(sites), key, floor), kind='below-floor')
+
+
+def _arm_name_call(facts, f, t):
+    sites = sorted({b['term']['at'] for _, b in F.blocks(f) if b['term']['k'] == 'call' and b['term'] is not None and (F.call_path(b['term']) or '') == (F.call_path(t) or '')}, key=lambda s_: int(str(s_).split(':')[-1]))
+    return '#%d' % (sites.index(t['at']) + 1) if t['at'] in sites else 'site'
+
+
 # ------------------------------------------------------------------------------------------------ fixed parts
 def fixed_parts_rule(ctx, facts, cfg, rid, key):
     """Question arm copies exactly 4 bytes, MX arm copies header + 2, SOA copies 20 behind the second name; second SOA name starts where the first ended."""
